@@ -28,8 +28,11 @@ EXPLANATION = (
     'list order and has the size-consistency gate; the packer honours the alignment flag; C01.5 nothing reachable from '
     'statement assembly reads ambient input or mutates model state that later statements see; C01.6 the reserved size adds '
     'each part\'s size, pads byte-aligned parts to a byte boundary and rounds up to whole bytes; C01.7 composite operand '
-    'codes are packed field by field. Not decided: the bit arithmetic of PackedBits.append_bits (cursor, bit_start, '
-    'little-endian byte selection) - a mutant confined to that arithmetic is invisible here.'
+    'codes are packed field by field; C01.9 the packer\'s cursor discipline by interval / typestate abstract interpretation of '
+    'append_bits: every store ORs one 0/1 value at the cursor (in [0, 7]) into the last byte, no position skipped or written twice, '
+    'no overwrite, a new zero byte exactly when the current one is full or the field is aligned, invariant restored on every exit. '
+    'Not decided: which bits of the value go out in which order (bit_start, little-endian byte selection, to_bytes) - a mutant '
+    'confined to that arithmetic is invisible here.'
 )
 ASSUMPTIONS = [
     'intra-group order of prefix codes (reverse operand order, because of insert(0)) has no offline documentation: today\'s tree is the reference',
